@@ -33,6 +33,7 @@ sub!(c08, "c08.rs");
 sub!(route, "route.rs");
 sub!(c02, "c02.rs");
 sub!(c15, "c15.rs");
+sub!(c17, "c17.rs");
 
 pub async fn main() -> Result<(), easy_error::Terminator> {
     let args: Vec<String> = std::env::args().collect();
@@ -53,6 +54,7 @@ pub async fn main() -> Result<(), easy_error::Terminator> {
         "c08" => c08::run(&mut out).await,
         "c02" => c02::run(&mut out).await,
         "c15" => c15::run(&mut out).await,
+        "c17" => c17::run(&mut out).await,
         _ => {
             eprintln!("unknown mode {}", mode);
             std::process::exit(2);
